@@ -97,6 +97,8 @@ struct Context {
     di_len: usize,
     ip: usize,
     mode: ContextMode,
+    // data stack height when the context was opened
+    ds_open: usize,
 }
 
 // everything a source can change while it is being built; restored if the build fails
@@ -582,6 +584,7 @@ impl State {
             di_len: self.dict.len(),
             ip: self.code_origin(),
             mode,
+            ds_open: self.data_stack.len(),
         };
         if self.ctx.mode == tmp.mode {
             tmp.ds_len = self.ctx.ds_len;
@@ -619,13 +622,14 @@ impl State {
                     self.dict.swap_remove(i);
                 }
             }
-            let is_building_fun = match self.flow_stack[prev.fs_len..].last() {
-                Some(Flow::Fun { .. }) => true,
-                _ => false,
-            };
-            if prev.mode != ContextMode::MetaEval || is_building_fun {
-                // emit meta-evaluation result
-                while self.data_stack.len() > self.ctx.ds_len {
+            // an enclosing meta block with a control structure, builder or definition open is
+            // compiling, not running: its code runs later, so the results have to be inlined there
+            let is_compiling = self.flow_stack[prev.fs_len..]
+                .iter()
+                .any(|f| !matches!(f, Flow::Enum(_)));
+            if prev.mode != ContextMode::MetaEval || is_compiling {
+                // emit meta-evaluation result: what this block left above the stack it was opened on
+                while self.data_stack.len() > self.ctx.ds_open.max(self.ctx.ds_len) {
                     let val = self.pop_data()?;
                     self.code_emit_value(val)?;
                 }
